@@ -91,7 +91,8 @@ Definition hist_hdr (vec chk : bool) (n cols size w words hist hp1 hp2 : Z) : hi
   else if hist =? 1 then HOk (mkV n cols size (size + hp1) (n * cols * (size + hp1) * w) w)
   else if (hist =? 7) || (hist =? 8) then HOk plain
   else if hist =? 9 then
-    (* from_data on a buffer 8*hp1 bytes short: VecZnx / ScalarZnx (chk) assert since 2067fe8, the others do not *)
+    (* from_data on a buffer 8*hp1 bytes short: every layout's from_data asserts the length (chk) since 2067fe8 / 122d562;
+       chk = false models a struct literal through the public fields, which no history of the harness uses *)
     let len := Z.max 0 (n * words * w - 8 * hp1) in
     if chk then match v_from_data_checked len n cols size w with Some v => HOk v | None => HBad end
     else HOk (v_from_data len n cols size w)
@@ -131,12 +132,17 @@ Definition nominal (ps : list Z) (ks : Z * Z * Z) (o : Z) : Z * Z * Z * Z :=    
 Definition run_c17 (code : Z) (ps : list Z) (vs : list (list Z)) : option (list (list Z)) :=
   let be := p ps 0 in let opc := p ps 1 in let n := p ps 2 in
   let hist := p ps 3 in let subj := p ps 4 in let hp1 := p ps 5 in let hp2 := p ps 6 in
+  if (100 <=? opc) && (opc <=? 112) then
+    (* scheme layers (CKKS add / mul / rescale; FheUint prepare / add / blind rotation): owned destination
+       (alloc: 64-byte rounded buffer), scratch window carved in the arena; nothing may go wrong *)
+    Some [[0; 1; 0; 1]; hdr_list (v_alloc n (p ps 7) (p ps 8) 8)]
+  else
   match op_kinds opc with
   | None => None
   | Some ks =>
     let '(cols, size, words, kind) := nominal ps ks subj in
     let w := w_of kind be in
-    match hist_hdr (kind =? K_Z) ((kind =? K_Z) || (kind =? K_S)) n cols size w words hist hp1 hp2 with
+    match hist_hdr (kind =? K_Z) ((kind =? K_Z) || (kind =? K_S) || (kind =? K_B) || (kind =? K_D) || (kind =? K_P)) n cols size w words hist hp1 hp2 with
     | HBad => None
     | HRejected v => Some [[2; 1; 0; 1]; hdr_list v]
     | HOk v =>
